@@ -138,6 +138,8 @@ type Program struct {
 	Deadline            time.Duration // > 0: the context expires by deadline after this much virtual time
 	LateGates           bool          // at shutdown, gates still closed are opened by a helper goroutine one second after Wait() was called
 	CtxFlavor           int           // how the lane's context is made: CtxPlain, CtxCause, CtxChild
+	EarlyWaiter         bool          // a goroutine calls Wait() straight after New(): it must not return while the context is live
+	Abrupt              bool          // New, a few pushes, cancel, Wait - back to back on one goroutine, without letting the lane settle; Ops are ignored
 	Ops                 []Op
 }
 
@@ -624,6 +626,44 @@ func (s *sim) push(t *task, producer bool) {
 	}
 }
 
+// abrupt: New, a push per lane, cancel, Wait - back to back on the calling goroutine. Whatever the lane's goroutines
+// still have to do when Wait() is called (they may not even have been scheduled yet), Wait() covers it: once it has
+// returned no task is started any more.
+func (s *sim) abrupt() {
+	s.directorPushing.Store(true)
+	for lane := 0; lane < s.p.LaneSize && lane < 8; lane++ {
+		s.push(s.newTask(TaskSpec{Kind: TInstant}, lane), true)
+	}
+	s.directorPushing.Store(false)
+	s.cancel()
+	s.cancelled.Store(true)
+	s.res.Cancelled = true
+	s.res.CancelPoint = "abrupt"
+	s.tl.Wait()
+	if r := s.running.Load(); r > 0 {
+		s.violate("C07", "Wait() returned while %d task(s) the lane had started had not returned yet", r)
+	}
+	s.mu.Lock()
+	counts := make([]int32, len(s.tasks))
+	for i, t := range s.tasks {
+		counts[i] = t.count.Load()
+	}
+	s.mu.Unlock()
+	time.Sleep(10 * time.Second)
+	synctest.Wait()
+	s.mu.Lock()
+	for i, t := range s.tasks {
+		if i < len(counts) && t.count.Load() != counts[i] {
+			s.viol = append(s.viol, Violation{"C07", fmt.Sprintf("New, push, cancel, Wait back to back: task #%d (lane %d) was started after Wait() had returned", t.id, t.lane)})
+		}
+		if t.count.Load() > 1 {
+			s.viol = append(s.viol, Violation{"C06", fmt.Sprintf("task #%d was started %d times", t.id, t.count.Load())})
+		}
+	}
+	s.mu.Unlock()
+	s.pollers.Wait()
+}
+
 // pushRightAfterCancel calls PushTask on every lane on the very goroutine that has just cancelled the context, before
 // any other goroutine gets a chance to run: "begins afterwards" includes "immediately afterwards", whatever the lane
 // has to do internally to learn of the cancel.
@@ -673,7 +713,26 @@ func Run(p Program) (res Result) {
 	tasklane.VerifHook.Store(&hk)
 	defer tasklane.VerifHook.Store(nil)
 	s.tl = tasklane.New(s.ctx, p.LaneSize, p.QueueSize)
+	if p.EarlyWaiter {
+		// Wait() may be called at any time, also before the lane's goroutines have been scheduled for the first time
+		s.pollers.Add(1)
+		go func() {
+			defer s.pollers.Done()
+			s.tl.Wait()
+			if s.ctx.Err() == nil {
+				s.violate("C07", "a Wait() call begun straight after New() returned while the context was still live: the lane's goroutines are still there")
+			}
+		}()
+	}
 	s.tl.SetTimeout(p.Timeout)
+	if p.Abrupt {
+		s.abrupt()
+		s.mu.Lock()
+		res = s.res
+		res.Violations = append(res.Violations, s.viol...)
+		s.mu.Unlock()
+		return res
+	}
 
 	maxSleep := p.Timeout
 	for i, op := range p.Ops {
